@@ -303,7 +303,7 @@ let handle (toks : string list) : string =
       let tn = if naming = "pinned" then pinned_temp_path else temp_path in
       let pth d nm = (n_of_int (int_of_string d), List.map n_of_int (raw_of_hex nm)) in
       let ts = List.mapi (fun i it -> match String.split_on_char ':' it with
-        | [k; d; nm] -> { tk_id = n_of_int (i + 1); tk_dest = pth d nm; tk_kind = (if k = "d" then KDelta else KDirect) }
+        | [k; d; nm] -> { tk_id = n_of_int (i + 1); tk_dest = pth d nm; tk_kind = (if k = "d" then KDelta else if k = "x" then KDelete else KDirect) }
         | _ -> failwith "task") (String.split_on_char ',' tasks) in
       let sc = if sched = "-" then [] else List.map (fun x -> nat_of_int (int_of_string x)) (String.split_on_char '.' sched) in
       let pre = if world = "-" then [] else List.map (fun it -> match String.split_on_char ':' it with
